@@ -30,6 +30,8 @@ anch = p.get("anchors", {})
 print("""You are testing how well a verification harness detects regressions in the Go library dsnet/compress
 (pure-Go compression codecs). Your own scratch copy of the repository is the git worktree
 {wt} (work ONLY there and in {out}; never touch /repo or /verif, and do not read /verif).
+Do NOT use `git stash` (the stash is shared by all worktrees of the repository; other agents work in sibling worktrees):
+use `git diff > file`, `git checkout -- .`, `git apply file` instead.
 Go runs offline: in every shell call first `export GOFLAGS=-mod=mod GOPROXY=off GOSUMDB=off GOTOOLCHAIN=local`.
 
 PROPERTY {id} — {title}
